@@ -1,5 +1,6 @@
 //! qh: correspondence / oracle harness driving the real qmc crate.
 mod c08;
+mod c09;
 mod c10;
 mod c15;
 mod c16;
@@ -35,7 +36,7 @@ pub fn write_shards(
         let path = format!("{}/{}.v", out, name);
         let mut f = std::io::BufWriter::new(std::fs::File::create(&path).unwrap());
         writeln!(f, "From Coq Require Import List QArith ZArith NArith Bool.").unwrap();
-        writeln!(f, "From QmcV Require Import Model.Prog Model.Sse Model.Ham Model.Diagonal Model.Tempering Model.Classical Check.Common Check.Table Check.{}.", module).unwrap();
+        writeln!(f, "From QmcV Require Import Model.Prog Model.Sse Model.Ham Model.Diagonal Model.Nav Model.Cluster Model.Tempering Model.Classical Check.Common Check.Table Check.{}.", module).unwrap();
         writeln!(f, "Import ListNotations.").unwrap();
         writeln!(f, "Definition base : N := {}%N.", k * per_shard.max(1)).unwrap();
         writeln!(f, "Definition cases : list {}.case := [", module).unwrap();
@@ -90,6 +91,7 @@ fn main() {
         "c08debug" => c08::debug(&args),
         "steps" => steps::run(&args),
         "c17" => c17::run(&args),
+        "c09" => c09::run(&args),
         "c10" => c10::run(&args),
         "c15" => c15::run(&args),
         "c19" => c19::run(&args),
